@@ -14,7 +14,8 @@ import c06
 
 
 def main():
-    return c06.check("C07", ["Proofs/C07/Tags.vo", "Proofs/C07/Order.vo", "Proofs/C07/Settings.vo", "Proofs/C07/Escape.vo", "Proofs/C07/Single.vo", "Model/CueCases.vo"],
+    return c06.check("C07", ["Proofs/C07/Tags.vo", "Proofs/C07/Order.vo", "Proofs/C07/Settings.vo", "Proofs/C07/Escape.vo", "Proofs/C07/Single.vo", "Proofs/C07/Runs.vo", "Proofs/C07/Wf.vo", "Proofs/C07/Flags.vo", "Proofs/C07/VttWf.vo", "Proofs/C06/Fixed.vo",
+                             "Model/CueCases.vo"],
                      "Each output is compared with M as a string, judged by the grammar recognisers srt_wf / vtt_wf and, character by "
                      "character, by runs against the computed styles of the snapshot, all evaluated in Coq.")
 
